@@ -24,6 +24,7 @@ from . import common
 from .common import CaseResult, case_rng, Fraction
 from . import packages as pk
 from . import ef
+from . import c01
 
 PID = 'C18'
 RULE = ('cases = 1..10 sources, each a ranked result (1..4 fits, best chi² finite / +inf / NaN) with a flag vector '
@@ -36,13 +37,21 @@ REQUIRED_BRANCHES = ['chi', 'cpd', 'auto_names', 'explicit_names', 'input_file',
                      'mixed', 'empty_output_file', 'best_inf', 'best_nan', 'flags_non_fitted', 'one_source', 'ten_sources',
                      'with_fluxes', 'no_fluxes', 'history', 'rerun_all_good_after_mixed', 'rerun_all_bad_after_mixed',
                      'rerun_other_criterion', 'rerun_auto_names', 'rerun_explicit_names',
-                     'good_explicit_names', 'bad_explicit_names', 'rerun_good_explicit_names', 'rerun_bad_explicit_names']
+                     'good_explicit_names', 'bad_explicit_names', 'rerun_good_explicit_names', 'rerun_bad_explicit_names',
+                     'input_single', 'both_criteria', 'falsy_threshold', 'thr_int', 'thr_np_float64', 'thr_np_int64',
+                     'dup_names', 'fitted_inputs', 'fitted_input_file', 'fitted_input_list', 'fitted_mixed']
 ASSUMPTIONS = ['thresholds are kept at least 1e-6 (relative) away from every best chi² / best chi² per point, so rounding of '
                'chi2[0] / n_data cannot change a comparison',
                'every record has at least one fit and n_data >= 1 (the property\'s domain)',
-               'pickle round trip of a record is observed, not modelled']
+               'pickle round trip of a record is observed, not modelled',
+               'a verdict "the caller\'s FitInfo objects were modified" is C10\'s property: reported as a disagreement without '
+               'violates',
+               'the history clause is also a theorem about a model of the two output paths (C18_history: both writers truncate '
+               'on open), tied to the code by these call histories']
 EXHAUSTIVE = {'quick': False, 'thorough': True}
 N = {'quick': 260, 'thorough': 2500}
+N_FITTED = {'quick': 16, 'thorough': 250}
+NUMTYPES = ['float', 'float', 'int', 'np.float64', 'np.int64']
 META = ('/models/dir', ['F0', 'F1'], None)
 # how the two output files are named: both automatic (<input>_good / <input>_bad), both explicit, or one of each
 NAME_MODES = ['auto', 'explicit', 'good_explicit', 'bad_explicit']
@@ -57,6 +66,35 @@ def n_data_of(flags):
 def crit(src, kind):
     c0 = ef.unjs(src['chi2'][0])
     return c0 if kind == 'chi' else c0 / n_data_of(src['flags'])
+
+
+def calls_of(case):
+    """the history as a list of dict(chi=…|None, cpd=…|None, nt=number type)"""
+    def norm(c):
+        if isinstance(c, dict):
+            return dict(chi=c.get('chi'), cpd=c.get('cpd'), nt=c.get('nt', 'float'))
+        kind, v = c
+        return dict(chi=v if kind == 'chi' else None, cpd=v if kind == 'cpd' else None, nt='float')
+    first = case['call0'] if 'call0' in case else [case['kind'], case['v']]
+    return [norm(first)] + [norm(c) for c in case.get('more', [])]
+
+
+def typed(v, nt):
+    if v is None:
+        return None
+    if nt == 'int':
+        return int(v)
+    if nt == 'np.int64':
+        return np.int64(int(v))
+    if nt == 'np.float64':
+        return np.float64(v)
+    return float(v)
+
+
+def is_good(src, call):
+    """the property: best chi² below chi=, or best chi² per fitted point below cpd= (whichever are given)"""
+    return ((call['chi'] is not None and crit(src, 'chi') < call['chi']) or
+            (call['cpd'] is not None and crit(src, 'cpd') < call['cpd']))
 
 
 def gen_source(rng, best=None):
@@ -126,6 +164,49 @@ def add_history(rng, case, wants=None):
     return case
 
 
+def int_threshold(rng, sources, kind):
+    """an integral threshold that differs from every attained value"""
+    vals = [crit(s, kind) for s in sources if math.isfinite(crit(s, kind))]
+    for _ in range(50):
+        v = float(rng.randint(1, int(max(vals + [3.])) + 3))
+        if all(abs(v - a) > 1e-6 * (1. + abs(v)) for a in vals):
+            return v
+    return None
+
+
+def variant(rng, case, what):
+    """replace the last call of the history by one of the less common call forms"""
+    src = case['sources']
+    if what == 'both':
+        a, b = pick_threshold(rng, src, 'chi'), pick_threshold(rng, src, 'cpd')
+        call = dict(chi=a, cpd=b)
+    elif what == 'falsy':
+        call = rng.choice([dict(chi=0.0), dict(cpd=0.0), dict(chi=0.0, cpd=pick_threshold(rng, src, 'cpd')),
+                           dict(chi=pick_threshold(rng, src, 'chi'), cpd=0.0), dict(chi=0, nt='int')])
+    else:
+        kind = rng.choice(['chi', 'cpd'])
+        if what in ('int', 'np.int64'):
+            v = int_threshold(rng, src, kind)
+        else:
+            v = pick_threshold(rng, src, kind)
+        call = {kind: v, 'nt': what}
+    if any(v is None for k, v in call.items() if k in ('chi', 'cpd')):
+        return case
+    if case.get('more'):
+        case['more'][-1] = call
+    else:
+        case['call0'] = call
+    return case
+
+
+def fitted_case(rng):
+    """inputs are what Fitter.fit returns (Quantity arrays, filters with Quantity wavelengths and an Extinction object in
+    meta, model_fluxes present); sources, thresholds and the history are drawn at run time from thr_seed"""
+    inp = rng.choice(['file', 'list'])
+    return dict(fitted=c01.gen_case(rng), thr_seed=rng.randrange(10 ** 9), input=inp,
+                names='explicit' if inp == 'list' else rng.choice(NAME_MODES), truncate=rng.random() < 0.5)
+
+
 def pattern_case(rng, pattern, kind):
     """sources whose good/bad pattern is prescribed (True = good)"""
     v = float('%.3g' % (10 ** rng.uniform(0, 1.5)))
@@ -173,6 +254,20 @@ def gen_cases(seed, tier):
     yield gen_case(r(12), nsrc=4, kind='cpd', names='bad_explicit', inp='file')
     yield add_history(r(13), dict(gen_case(r(13), nsrc=4, kind='chi', names='good_explicit', inp='file', bests=mixed), v=10.), ['all_bad', None])
     yield add_history(r(14), dict(gen_case(r(14), nsrc=4, kind='chi', names='bad_explicit', inp='file', bests=mixed), v=10.), ['all_good', None])
+    # a single FitInfo (not a list), both criteria at once, falsy thresholds, integer / numpy thresholds, equal source names
+    yield gen_case(r(15), nsrc=1, kind='chi', names='explicit', inp='single')
+    yield add_history(r(16), gen_case(r(16), nsrc=1, kind='cpd', names='explicit', inp='single'), ['all_good', 'all_bad'])
+    yield variant(r(17), gen_case(r(17), nsrc=5, inp='file', bests=mixed + [7.]), 'both')
+    yield variant(r(18), add_history(r(18), gen_case(r(18), nsrc=5, inp='list', bests=mixed + [7.]), [None]), 'both')
+    yield variant(r(19), gen_case(r(19), nsrc=4, inp='file', bests=mixed), 'falsy')
+    yield variant(r(20), add_history(r(20), gen_case(r(20), nsrc=4, inp='list', bests=mixed), [None]), 'falsy')
+    yield variant(r(21), gen_case(r(21), nsrc=4, inp='file', bests=mixed), 'int')
+    yield variant(r(22), gen_case(r(22), nsrc=4, inp='list', bests=mixed), 'np.float64')
+    yield variant(r(23), gen_case(r(23), nsrc=4, inp='file', bests=mixed), 'np.int64')
+    yield dict(gen_case(r(24), nsrc=5, inp='list', bests=mixed + [7.]), dup_names=True)
+    yield dict(add_history(r(25), gen_case(r(25), nsrc=5, inp='file', bests=mixed + [7.]), ['all_good']), dup_names=True)
+    for i in range(4):
+        yield dict(fitted_case(r(30 + i)), input=['file', 'list'][i % 2], names='explicit')
     if tier == 'thorough':
         k = 0
         for n in range(1, 7):
@@ -185,7 +280,16 @@ def gen_cases(seed, tier):
         c = gen_case(rng)
         if rng.random() < 0.5:
             add_history(rng, c)
+        u = rng.random()
+        if u < 0.3:
+            variant(rng, c, rng.choice(['both', 'both', 'falsy', 'int', 'np.float64', 'np.int64']))
+        if rng.random() < 0.1:
+            c['dup_names'] = True
+        if len(c['sources']) == 1 and c['names'] == 'explicit' and rng.random() < 0.5:
+            c['input'] = 'single'
         yield c
+    for i in range(N_FITTED[tier]):
+        yield fitted_case(case_rng(seed, PID, 'fitted-%d' % i))
 
 
 # ----------------------------------------------------------------------------- one case
@@ -197,7 +301,8 @@ def build_infos(case):
         n = len(chi2)
         pay = ef.payload(n, with_fluxes=s['fluxes'], nflux=len(s['flags']), ids=[(7 * i + j) % 11 for j in range(n)])
         pay['av'] = [a + 100 * i for a in pay['av']]
-        info = ef.build_info(chi2, pay, flags=s['flags'], source_name='src%02d' % i, meta=META)
+        info = ef.build_info(chi2, pay, flags=s['flags'],
+                             source_name='same' if (case.get('dup_names') and i % 3 != 2) else 'src%02d' % i, meta=META)
         info.source.x = 10. + i
         info.source.y = -5. + i / 8.
         info.source.flux = np.array([1. + i + j / 4. for j in range(len(s['flags']))])
@@ -217,6 +322,23 @@ def record_state(info):
                 model_fluxes=None if a['model_fluxes'] is None else [[float(f) for f in r] for r in a['model_fluxes']])
 
 
+def meta_state(meta):
+    """the header of a fit file (model_dir, filters, extinction law) in comparable form"""
+    def q(v):
+        if hasattr(v, 'unit') and hasattr(v, 'value'):
+            return ('Q', [float(x) for x in np.atleast_1d(v.value)], str(v.unit))
+        if isinstance(v, (np.floating, np.integer)):
+            return float(v)
+        return v
+    filters = []
+    for f in (meta.filters or []):
+        filters.append(sorted((k, q(v)) for k, v in f.items()) if isinstance(f, dict) else q(f))
+    law = meta.extinction_law
+    if law is not None:
+        law = (q(law.wav), q(law.chi))
+    return (meta.model_dir, filters, law)
+
+
 def read_back(path):
     from sedfitter.fit_info import FitInfoFile
     if not os.path.exists(path):
@@ -227,35 +349,83 @@ def read_back(path):
         return []                      # zero-byte file: no record was written
     try:
         recs = [record_state(info) for info in f]
-        meta = (f.meta.model_dir, f.meta.filters, f.meta.extinction_law)
+        meta = meta_state(f.meta)
     finally:
         f.close()
     return recs, meta
 
 
+def resolve(case, d):
+    """(infos, sources, calls): the FitInfo objects to filter, their description for the oracle / the model, and the
+    history of calls.  For `fitted` cases all three are derived here from what Fitter.fit returns."""
+    if 'fitted' not in case:
+        return build_infos(case), case['sources'], calls_of(case)
+    e2e = case['fitted']
+    rng = case_rng(case['thr_seed'], PID, 'fitted-thresholds')
+    pkgdir = os.path.join(d, 'models')
+    os.makedirs(pkgdir)
+    with common.quiet():
+        fitter, _ = c01.build(e2e, pkgdir)
+    infos, sources = [], []
+    for si, src in enumerate(e2e['sources']):
+        if c01.singular(e2e, src):
+            continue
+        s = pk.make_source('fit%02d' % si, src['flags'], src['flux'], src['err'], x=10. + len(infos), y=-3. + si)
+        with common.quiet():
+            info = fitter.fit(s)
+            if case.get('truncate'):
+                info.keep(('N', rng.randint(1, len(e2e['models']))))
+        a = pk.fit_arrays(info)
+        if not (np.all(np.isfinite(a['av'])) and np.all(np.isfinite(a['sc'])) and ef.is_ranked(a['chi2'])):
+            continue
+        infos.append(info)
+        sources.append(dict(chi2=[ef.js(c) for c in a['chi2']], flags=[int(f) for f in src['flags']], fluxes=True))
+    calls = []
+    if infos:
+        for w in [None] + [rng.choice([None, 'all_good', 'all_bad']) for _ in range(rng.randint(0, 2))]:
+            kind = rng.choice(['chi', 'cpd'])
+            v = pick_threshold(rng, sources, kind, w)
+            if v is not None:
+                calls.append(dict(chi=v if kind == 'chi' else None, cpd=v if kind == 'cpd' else None, nt='float'))
+    return infos, sources, calls
+
+
 def property_side(case):
-    """run filter_output and evaluate C18 directly; returns (ok, detail, branches, good_idx, bad_idx)"""
+    """run the history of filter_output calls and evaluate C18 directly after each.
+    Returns (ok, detail, branches, good_idx per call, bad_idx per call, resolved (sources, calls), violates)"""
     from sedfitter.fit_info import FitInfoFile
     from sedfitter.filter_output import filter_output
     d = tempfile.mkdtemp(prefix='c18_')
-    br = {case['kind'], case['names'] + '_names', 'input_' + case['input']}
-    nsrc = len(case['sources'])
-    if nsrc == 1:
-        br.add('one_source')
-    if nsrc == 10:
-        br.add('ten_sources')
-    for s in case['sources']:
-        c0 = ef.unjs(s['chi2'][0])
-        if c0 == ef.INF:
-            br.add('best_inf')
-        if math.isnan(c0):
-            br.add('best_nan')
-        if any(f not in (1, 4) for f in s['flags']):
-            br.add('flags_non_fitted')
-        br.add('with_fluxes' if s['fluxes'] else 'no_fluxes')
+    br = {case['names'] + '_names', 'input_' + case['input']}
     try:
-        infos = build_infos(case)
+        try:
+            infos, sources, calls = resolve(case, d)
+        except Exception as e:
+            return False, 'building the inputs failed: %s: %s' % (type(e).__name__, e), br, None, None, None, None
+        nsrc = len(sources)
+        if 'fitted' in case:
+            br.add('fitted_inputs')
+            br.add('fitted_input_' + case['input'])
+            if not infos or not calls:
+                return True, '', br, [], [], (sources, []), None
+        if case.get('dup_names'):
+            br.add('dup_names')
+        if nsrc == 1:
+            br.add('one_source')
+        if nsrc == 10:
+            br.add('ten_sources')
+        for s in sources:
+            c0 = ef.unjs(s['chi2'][0])
+            if c0 == ef.INF:
+                br.add('best_inf')
+            if math.isnan(c0):
+                br.add('best_nan')
+            if any(f not in (1, 4) for f in s['flags']):
+                br.add('flags_non_fitted')
+            br.add('with_fluxes' if s['fluxes'] else 'no_fluxes')
         before = [record_state(i) for i in infos]
+        meta0 = meta_state(infos[0].meta)
+        ids = [b['x'] for b in before]                       # the source's position identifies it (names may repeat)
         path = os.path.join(d, 'input.fitinfo')
         if case['input'] == 'file':
             fout = FitInfoFile(path, 'w')
@@ -263,6 +433,8 @@ def property_side(case):
                 fout.write(info)
             fout.close()
             arg = path
+        elif case['input'] == 'single':
+            arg = infos[0]
         else:
             arg = infos
         good_path, bad_path = path + '_good', path + '_bad'
@@ -273,82 +445,92 @@ def property_side(case):
         if case['names'] in ('explicit', 'bad_explicit'):
             bad_path = os.path.join(d, 'badly.out')
             kw['output_bad'] = bad_path
-        calls = [[case['kind'], case['v']]] + [list(c) for c in case.get('more', [])]
         if len(calls) > 1:
             br.add('history')
-        names = [b['name'] for b in before]
         results = []
         prev = None
-        for ci, (kind, v) in enumerate(calls):
-            br.add(kind)
+        for ci, call in enumerate(calls):
             ckw = dict(kw)
-            ckw[kind] = v
-            what = 'call %d of %d: filter_output(%s input of %d sources, %s=%r, %s names%s)' % (
-                ci + 1, len(calls), case['input'], nsrc, kind, v, case['names'],
+            given = [k for k in ('chi', 'cpd') if call[k] is not None]
+            for k in given:
+                br.add(k)
+                ckw[k] = typed(call[k], call['nt'])
+            if len(given) == 2:
+                br.add('both_criteria')
+            if any(call[k] == 0 for k in given):
+                br.add('falsy_threshold')
+            if call['nt'] != 'float':
+                br.add('thr_' + call['nt'].replace('.', '_'))
+            what = 'call %d of %d: filter_output(%s input of %d sources, %s, %s names%s)' % (
+                ci + 1, len(calls), case['input'], nsrc, ', '.join('%s=%r' % (k, ckw[k]) for k in given), case['names'],
                 '' if ci == 0 else '; same output paths as the earlier call(s) %r' % (calls[:ci],))
             try:
                 with common.quiet():
                     filter_output(arg, **ckw)
             except Exception as e:
-                return False, '%s raised %s: %s' % (what, type(e).__name__, e), br, None, None
+                return False, '%s raised %s: %s' % (what, type(e).__name__, e), br, None, None, None, True
             try:
                 good = read_back(good_path)
                 bad = read_back(bad_path)
             except Exception as e:
-                return False, '%s: reading the outputs back raised %s: %s' % (what, type(e).__name__, e), br, None, None
+                return False, '%s: reading the outputs back raised %s: %s' % (what, type(e).__name__, e), br, None, None, None, True
             if good is None or bad is None:
                 return (False, '%s: output file missing: good file %s %s, bad file %s %s; files present: %r'
                         % (what, good_path, 'exists' if good is not None else 'MISSING', bad_path,
-                           'exists' if bad is not None else 'MISSING', sorted(os.listdir(d))), br, None, None)
+                           'exists' if bad is not None else 'MISSING', sorted(os.listdir(d))), br, None, None, None, True)
             if good == [] or bad == []:
                 br.add('empty_output_file')
-            grecs, gmeta = good if good else ([], META)
-            brecs, bmeta = bad if bad else ([], META)
-            if gmeta != META or bmeta != META:
-                return False, '%s: header of an output file changed: %r / %r' % (what, gmeta, bmeta), br, None, None
-            gi = [names.index(r['name']) if r['name'] in names else -1 for r in grecs]
-            bi = [names.index(r['name']) if r['name'] in names else -1 for r in brecs]
+            grecs, gmeta = good if good else ([], meta0)
+            brecs, bmeta = bad if bad else ([], meta0)
+            if gmeta != meta0 or bmeta != meta0:
+                return False, '%s: header of an output file changed: %r / %r, input %r' % (what, gmeta, bmeta, meta0), br, None, None, None, True
+            gi = [ids.index(r['x']) if r['x'] in ids else -1 for r in grecs]
+            bi = [ids.index(r['x']) if r['x'] in ids else -1 for r in brecs]
             # complete and disjoint
             if sorted(gi + bi) != list(range(nsrc)):
-                return (False, '%s: sources in good file %r, in bad file %r; every one of the %d input sources must be in exactly one'
-                        % (what, [r['name'] for r in grecs], [r['name'] for r in brecs], nsrc), br, None, None)
+                return (False, '%s: sources (by input position) in good file %r, in bad file %r; every one of the %d input sources '
+                        'must be in exactly one' % (what, gi, bi, nsrc), br, None, None, None, True)
             # order
             if gi != sorted(gi) or bi != sorted(bi):
-                return False, '%s: input order not preserved: good %r bad %r' % (what, gi, bi), br, None, None
+                return False, '%s: input order not preserved: good %r bad %r' % (what, gi, bi), br, None, None, None, True
             # unchanged
             for idx, rec in list(zip(gi, grecs)) + list(zip(bi, brecs)):
                 if rec != before[idx]:
-                    return False, '%s: record of %s changed: written %r, input %r' % (what, names[idx], rec, before[idx]), br, None, None
-            # the caller's objects are not touched either (list input)
+                    diff = [k for k in rec if rec[k] != before[idx][k]]
+                    return (False, '%s: record of source %d (%s) changed in field(s) %r: written %r, input %r'
+                            % (what, idx, before[idx]['name'], diff, {k: rec[k] for k in diff},
+                               {k: before[idx][k] for k in diff}), br, None, None, None, True)
+            # the caller's objects are not touched either (that is C10's property: reported, but not as a C18 violation)
             after = [record_state(i) for i in infos]
             if after != before:
-                return False, '%s: the input FitInfo objects were modified' % what, br, None, None
+                return False, '%s: the input FitInfo objects were modified (C10)' % what, br, None, None, None, None
             # criterion
-            want_good = [i for i, s in enumerate(case['sources']) if crit(s, kind) < v]
+            want_good = [i for i, s in enumerate(sources) if is_good(s, call)]
             if gi != want_good:
-                return (False, '%s: good file holds sources %r; sources whose best %s is below the threshold: %r (best values %r)'
-                        % (what, gi, 'chi2' if kind == 'chi' else 'chi2 per point', want_good,
-                           [ef.js(crit(s, kind)) for s in case['sources']]), br, None, None)
+                return (False, '%s: good file holds sources %r; sources whose best chi2 (per point) is below the threshold(s): %r '
+                        '(best chi2 %r, per point %r)' % (what, gi, want_good, [ef.js(crit(s, 'chi')) for s in sources],
+                                                         [ef.js(crit(s, 'cpd')) for s in sources]), br, None, None, None, True)
             shape = 'all_good' if len(gi) == nsrc else 'all_bad' if not gi else 'mixed'
             br.add(shape)
+            if 'fitted' in case and shape == 'mixed':
+                br.add('fitted_mixed')
             if ci > 0:
                 br.add('rerun_%s_names' % case['names'])
-                if kind != calls[ci - 1][0]:
+                if given != [k for k in ('chi', 'cpd') if calls[ci - 1][k] is not None]:
                     br.add('rerun_other_criterion')
                 if prev == 'mixed' and shape in ('all_good', 'all_bad'):
                     br.add('rerun_%s_after_mixed' % shape)
             prev = shape
             results.append((gi, bi))
-        return True, '', br, [r[0] for r in results], [r[1] for r in results]
+        return True, '', br, [r[0] for r in results], [r[1] for r in results], (sources, calls), None
     finally:
         shutil.rmtree(d, ignore_errors=True)
 
 
-def model_call(case, kind, v):
-    chi = ef.ef_tok(v) if kind == 'chi' else 'none'
-    cpd = ef.ef_tok(v) if kind == 'cpd' else 'none'
-    line = ['partition', chi, cpd, str(len(case['sources']))]
-    for s in case['sources']:
+def model_call(sources, call):
+    tok = lambda v: 'none' if v is None else ef.ef_tok(float(v))
+    line = ['partition', tok(call['chi']), tok(call['cpd']), str(len(sources))]
+    for s in sources:
         line += [str(len(s['chi2']))] + [ef.ef_tok(ef.unjs(c)) for c in s['chi2']]
         line += [str(len(s['flags']))] + [str(f) for f in s['flags']]
     t = common.driver().ask(' '.join(line))
@@ -358,25 +540,22 @@ def model_call(case, kind, v):
     return t.nats(), t.nats()
 
 
-def model_side(case):
-    """the model's partition for every call of the history (each call starts from empty output files)"""
-    calls = [[case['kind'], case['v']]] + [list(c) for c in case.get('more', [])]
-    res = [model_call(case, k, v) for k, v in calls]
-    return [r[0] for r in res], [r[1] for r in res]
-
-
 def run_case(case):
     key = common.canon_hash(case)
-    ok, detail, br, gi, bi = property_side(case)
+    ok, detail, br, gi, bi, resolved, violates = property_side(case)
     if not ok:
-        return CaseResult(False, detail=detail, violates=True, branches=br, key=key)
-    mg, mb = model_side(case)
+        return CaseResult(False, detail=detail, violates=violates, branches=br, key=key)
+    sources, calls = resolved
+    res = [model_call(sources, c) for c in calls]
+    mg, mb = [r[0] for r in res], [r[1] for r in res]
     if mg != gi or mb != bi:
         return CaseResult(False, detail='model and implementation differ on %r: per call, model good=%r bad=%r, impl good=%r bad=%r'
-                          % (case, mg, mb, gi, bi), violates=None, branches=br, key=key)
-    return CaseResult(True, branches=br, key=key, nontrivial=len(case['sources']) >= 2,
+                          % (case if 'fitted' not in case else (sources, calls), mg, mb, gi, bi),
+                          violates=None, branches=br, key=key)
+    small = dict(case, sources=case['sources'][:3]) if 'sources' in case else dict(fitted=True, n_sources=len(sources), calls=calls)
+    return CaseResult(True, branches=br, key=key, nontrivial=len(sources) >= 2,
                       detail='per call: impl good=%r bad=%r\nmodel good=%r bad=%r' % (gi, bi, mg, mb),
-                      sample=dict(case=dict(case, sources=case['sources'][:3]), good=gi, bad=bi))
+                      sample=dict(case=small, good=gi, bad=bi))
 
 
 def search(seed, tier, disagreeing):
@@ -385,8 +564,9 @@ def search(seed, tier, disagreeing):
     pool = list(disagreeing) + list(itertools.islice(gen_cases(seed, 'quick'), 150))
     for case in pool:
         tried += 1
-        ok, detail, _, _, _ = property_side(case)
-        if not ok:
+        r_ = property_side(case)
+        ok, detail = r_[0], r_[1]
+        if not ok and r_[6]:
             found.append((case, detail))
             if len(found) >= 5:
                 break
@@ -394,9 +574,13 @@ def search(seed, tier, disagreeing):
 
 
 def shrink(case):
+    if 'fitted' in case:
+        return case
+
     def fails(c):
         try:
-            return not property_side(c)[0]
+            r_ = property_side(c)
+            return (not r_[0]) and bool(r_[6])
         except Exception:
             return False
     cur = case
